@@ -324,3 +324,170 @@ func VX_C02_DuplicateReply(args []int) {
 	vxAssert(vxBlockedThreads() == 0, "[C06] nobody left blocked once the input is exhausted")
 	vxCover("c02.duplicate-reply")
 }
+
+func init() { vxRegister("VX_C01_SeqAcrossRedial", VX_C01_SeqAcrossRedial) }
+
+// VX_C01_SeqAcrossRedial: a call issued while a redial-enabled client session
+// is reconnecting goes out on the new connection; calls issued afterwards
+// never share its sequence number, and every call receives its own reply.
+// args: later (number of calls issued after the redial)
+func VX_C01_SeqAcrossRedial(args []int) {
+	p := NewPeer(PeerConfig{RedialTimes: 2})
+	var conns []*vxConn
+	hold := make(chan struct{})
+	dials := 0
+	VXSetDialHook(func(addr string) (net.Conn, error) {
+		dials++
+		if dials == 2 {
+			<-hold // the redial is in progress while call A is issued
+		}
+		c := newVxConn(fmt.Sprintf("cli:%d", dials), addr)
+		conns = append(conns, c)
+		return c, nil
+	})
+	defer VXSetDialHook(nil)
+	s, st := p.Dial("srv:1")
+	vxAssume(st.OK())
+	s.SetID("user-1")
+	vxWaitIdle()
+	// a warm-up call so that the counter has moved
+	var r0 []byte
+	c0 := s.AsyncCall("/warm", []byte("w"), &r0, make(chan CallCmd, 1))
+	conns[0].feed(vxFrame(TypeReply, c0.Output().Seq(), "", []byte("warm")))
+	vxWaitIdle()
+	vxAssume(vxDone(c0) && c0.StatusOK())
+	conns[0].end() // the connection is lost; the reader starts redialing and is held in the dial
+	vxWaitIdle()
+	type callT struct {
+		cmd  CallCmd
+		res  *[]byte
+		want string
+	}
+	var calls []*callT
+	issue := func(tag string) {
+		res := new([]byte)
+		calls = append(calls, &callT{s.AsyncCall("/op/"+tag, []byte(tag), res, make(chan CallCmd, 1)), res, "reply-for-" + tag})
+	}
+	started := make(chan struct{}, 1)
+	go func() {
+		started <- struct{}{}
+		issue("A") // issued during the outage
+	}()
+	vxWaitIdle()
+	close(hold)
+	vxWaitIdle()
+	vxAssume(len(calls) == 1 && len(conns) == 2 && s.Health())
+	for k := 0; k < args[0]; k++ {
+		issue(string(rune('B' + k)))
+	}
+	seen := map[int32]bool{}
+	for _, c := range calls {
+		if !vxDone(c.cmd) {
+			vxAssert(!seen[c.cmd.Output().Seq()], "pending calls of one session never share a sequence number")
+			seen[c.cmd.Output().Seq()] = true
+		}
+	}
+	// the server answers every request it received on the new connection, oldest last
+	nc := conns[1]
+	for k := len(nc.writes) - 1; k >= 0; k-- {
+		m, err := vxParse(nc.writes[k])
+		if err != nil || m.Mtype() != TypeCall {
+			continue
+		}
+		nc.feed(vxFrame(TypeReply, m.Seq(), "", []byte("reply-for-"+string(vxBodyOf(m)))))
+		vxWaitIdle()
+	}
+	for _, c := range calls {
+		vxAssert(vxDone(c.cmd), "[C02] every call completes")
+		if vxDone(c.cmd) && c.cmd.StatusOK() {
+			vxAssert(string(*c.res) == c.want, "a call that completes OK holds the reply to its own request")
+		}
+	}
+	vxCover("c01.seq-across-redial")
+}
+
+func init() { vxRegister("VX_C16_ListenerOncePerConn", VX_C16_ListenerOncePerConn) }
+
+// vxListener hands out queued scripted connections.
+type vxListener struct {
+	queue  []net.Conn
+	closed bool
+}
+
+func (l *vxListener) Accept() (net.Conn, error) {
+	vxWaitUntil(func() bool { return len(l.queue) > 0 || l.closed })
+	if l.closed {
+		return nil, errors.New("listener closed")
+	}
+	c := l.queue[0]
+	l.queue = l.queue[1:]
+	return c, nil
+}
+func (l *vxListener) Close() error   { l.closed = true; return nil }
+func (l *vxListener) Addr() net.Addr { return vxAddr("srv:1") }
+
+// vxGatekeeper is an accept-time exchange in the style of the auth checker:
+// it reads the first frame of the connection and admits it iff the frame's
+// body is the good token.
+type vxGatekeeper struct {
+	seen map[string]int
+}
+
+func (g *vxGatekeeper) Name() string { return "vxgatekeeper" }
+func (g *vxGatekeeper) PostAccept(s PreSession) *Status {
+	g.seen[s.RemoteAddr().String()]++
+	var tok []byte
+	in := s.PreReceive(func(Header) interface{} { return &tok })
+	if !in.StatusOK() || string(tok) != "good" {
+		return NewStatus(CodeUnauthorized, "bad token", "")
+	}
+	return nil
+}
+
+// VX_C16_ListenerOncePerConn: several connections are already queued when the
+// accept loop of a listening peer gets to them: every connection gets its own
+// accept-time exchange exactly once; a connection that failed it is closed and
+// not listed, the others are served. args: n (connections), bad (index of the one with a wrong token, -1 none)
+func VX_C16_ListenerOncePerConn(args []int) {
+	n, bad := args[0], args[1]
+	g := &vxGatekeeper{seen: map[string]int{}}
+	p := vxNewPeer(g)
+	handled := map[string]int{}
+	p.SetUnknownCall(func(ctx UnknownCallCtx) (interface{}, *Status) {
+		handled[ctx.Session().ID()]++
+		return []byte("secret"), nil
+	})
+	lis := &vxListener{}
+	var conns []*vxConn
+	for k := 0; k < n; k++ {
+		c := newVxConn("srv:1", fmt.Sprintf("cli:%d", k))
+		tok := "good"
+		if k == bad {
+			tok = "evil"
+		}
+		c.feed(vxFrame(TypeAuthCall, 1, "", []byte(tok)))
+		c.feed(vxFrame(TypeCall, 2, "/steal", []byte("x")))
+		conns = append(conns, c)
+		lis.queue = append(lis.queue, c)
+	}
+	go p.(*peer).serveListener(lis)
+	vxWaitIdle()
+	for k, c := range conns {
+		id := fmt.Sprintf("cli:%d", k)
+		vxAssert(g.seen[id] == 1, "the accept-time exchange happens exactly once per connection")
+		if k == bad {
+			vxAssert(handled[id] == 0 && c.isClosed(), "a connection that failed the exchange is closed and nothing is handled on it")
+			_, listed := p.GetSession(id)
+			vxAssert(!listed, "and it is not listed")
+		} else {
+			vxAssert(handled[id] == 1, "a connection that passed the exchange is served (once)")
+		}
+	}
+	want := n
+	if bad >= 0 {
+		want--
+	}
+	vxAssert(p.CountSession() == want, "exactly the admitted connections are listed")
+	lis.Close()
+	vxCover("c16.listener")
+}
